@@ -65,6 +65,7 @@ type Program struct {
 	crossCheck       map[string]interface{}
 	returnCovers     bool
 	returnCoverStats map[string]interface{}
+	variantLog       []string
 	twinStats        map[string]interface{}
 	probeSelftest    map[string]interface{}
 	conformanceNote  string
@@ -211,7 +212,7 @@ func (p *Program) prelude(native bool) string {
 		return s
 	}
 	s := Prelude(p.Lang, native)
-	s += "(declare-const nilAny Any)\n(declare-fun f_acc (SSeq Int Int Int) Int)\n"
+	s += "(declare-const nilAny Any)\n(declare-fun f_acc (SSeq Int Int Int) Int)\n(declare-fun f_horner (SSeq Int Int) Int)\n"
 	// zero values of arrays over uninterpreted sorts (cvc5 accepts only values in `as const`)
 	s += "(declare-const zeroStrArr (Array Int Str))\n(assert (forall ((i Int)) (! (= (select zeroStrArr i) lit_empty) :pattern ((select zeroStrArr i)))))\n"
 	s += "(declare-const zeroAnyArr (Array Int Any))\n(assert (forall ((i Int)) (! (= (select zeroAnyArr i) nilAny) :pattern ((select zeroAnyArr i)))))\n"
